@@ -14,12 +14,18 @@ Binding:
      damage of small valid artefacts, decompression bombs, and every ingestion run under os-level
      interposition with a fault injected at every eligible call, is logged as an event record /
      event trace and judged by TLC with IngestTrace (Contained, Prompt, FailedIngestInvisible,
-     NoPartialPackUsed, SuccessIsConsistent, TrailerChecked; protocol shape = drift).
+     NoPartialPackUsed, SuccessIsConsistent, TrailerChecked; protocol shape = drift); random packs of
+     5..8 entries with several damages at once (beyond what TLC enumerates) go the same way;
+  G  C git as a third opinion on the *model*: `git index-pack --stdin --fix-thin` must accept exactly
+     the shapes the model's thin-stream reader accepts (dulwich not involved).
+The model is checked in its repaired configuration (cycle guard in Pack.resolve_object, atomic
+MemoryObjectStore.add_pack, trailer check in DiskObjectStore.add_pack, rollback that survives a failing
+close); the as-is configurations are negative controls whose TLC counterexamples are replayed on the
+real code (evidence: negative_controls_replayed).
 A VIOLATION comes only from TLC's verdict on what the real code did.
 """
 from __future__ import annotations
 
-import errno
 import json
 import os
 import re
@@ -29,7 +35,7 @@ import sys
 import time
 
 from .. import c04_lib as L
-from .. import sched, tlc
+from .. import tlc
 from ..core import REPO, VERIF, MachineryError
 
 PY = "/venv/bin/python"
@@ -95,6 +101,7 @@ def run_pool(ctx, cases, label, nworkers=None, hard_s=150):
     gen = [0] * nworkers
     procs = [None] * nworkers
     outs = [None] * nworkers
+    errs = [None] * nworkers
     last_progress = [time.time()] * nworkers
     last_size = [0] * nworkers
 
@@ -105,8 +112,10 @@ def run_pool(ctx, cases, label, nworkers=None, hard_s=150):
         with open(inp, "w") as f:
             json.dump(queues[w], f)
         open(outs[w], "w").close()
-        procs[w] = subprocess.Popen([PY, "-m", "harness.c04_child", inp, outs[w], os.path.join(ctx.scratch, f"w{label}{w}_{gen[w]}")],
-                                    cwd=VERIF, env=env, stdout=subprocess.DEVNULL, stderr=subprocess.PIPE)
+        errs[w] = outs[w] + ".stderr"
+        with open(errs[w], "wb") as ef:          # a file, not a pipe: a chatty finaliser must never block the worker
+            procs[w] = subprocess.Popen([PY, "-m", "harness.c04_child", inp, outs[w], os.path.join(ctx.scratch, f"w{label}{w}_{gen[w]}")],
+                                        cwd=VERIF, env=env, stdout=subprocess.DEVNULL, stderr=ef)
         last_progress[w] = time.time()
         last_size[w] = 0
 
@@ -150,7 +159,11 @@ def run_pool(ctx, cases, label, nworkers=None, hard_s=150):
             if stuck:
                 p.kill()
                 p.wait()
-            err = (p.stderr.read() or b"").decode("utf-8", "replace")[-1500:] if p.stderr else ""
+            try:
+                with open(errs[w], "rb") as ef:
+                    err = ef.read().decode("utf-8", "replace")[-1500:]
+            except OSError:
+                err = ""
             running = harvest(w)
             procs[w] = None
             rest = [c for c in queues[w] if c["id"] not in results]
@@ -314,10 +327,19 @@ def attack_models(ctx):
     else:
         plan.append(("n=3, at most one container damage", dict(MinN=3, MaxN=3, AttrMode=1), None))
         plan.append(("n=4, intact container", dict(MinN=4, MaxN=4, AttrMode=0), None))
+    from concurrent.futures import ThreadPoolExecutor
+    negplan = (
+        ("as-is Pack.resolve_object (no cycle guard)", dict(MinN=2, MaxN=2, AttrMode=0, Modes="{7}", CycleGuard="FALSE", Emit="FALSE"), "Terminates"),
+        ("as-is MemoryObjectStore (publishes object by object)", dict(MinN=2, MaxN=2, AttrMode=0, Modes="{3, 4}", MemAtomic="FALSE", Emit="FALSE"), "FailedInvisible"),
+        ("as-is DiskObjectStore.add_pack (trailer not verified)", dict(MinN=1, MaxN=1, AttrMode=1, Modes="{2}", DiskVerify="FALSE", Emit="FALSE"), "TrailerChecked"))
+    with ThreadPoolExecutor(max_workers=6) as tp:
+        runs = [tp.submit(tlc.run, "PackAttack.tla", pa_cfg(ctx, "pa", **c), workers=ctx.pick(4, 8), timeout=1500) for (_, c, _) in plan]
+        nruns = [tp.submit(tlc.run, "PackAttack.tla", pa_cfg(ctx, "neg", **c), workers=1, timeout=300) for (_, c, _) in negplan]
+        runs = [f.result() for f in runs]
+        nruns = [f.result() for f in nruns]
     shapes = {}
     exhaustive = True
-    for label, c, sample in plan:
-        res = tlc.run("PackAttack.tla", pa_cfg(ctx, "pa", **c), workers=ctx.pick(6, 8), timeout=1500)
+    for (label, c, sample), res in zip(plan, runs):
         ctx.add_tlc(f"PackAttack[{label}] (repaired design: CycleGuard, MemAtomic, DiskVerify)", res)
         sh, nl = parse_pa(res.output)
         if not sh:
@@ -333,11 +355,7 @@ def attack_models(ctx):
             shapes[k] = sh[k]
         ctx.log(f"PackAttack {label}: {res.distinct} states, {len(sh)} shapes, replaying {len(keys)}")
     neg = []
-    for name, c, expect in (
-            ("as-is Pack.resolve_object (no cycle guard)", dict(MinN=2, MaxN=2, AttrMode=0, Modes="{7}", CycleGuard="FALSE", Emit="FALSE"), "Terminates"),
-            ("as-is MemoryObjectStore (publishes object by object)", dict(MinN=2, MaxN=2, AttrMode=0, Modes="{3, 4}", MemAtomic="FALSE", Emit="FALSE"), "FailedInvisible"),
-            ("as-is DiskObjectStore.add_pack (trailer not verified)", dict(MinN=1, MaxN=1, AttrMode=1, Modes="{2}", DiskVerify="FALSE", Emit="FALSE"), "TrailerChecked")):
-        r = tlc.run("PackAttack.tla", pa_cfg(ctx, "neg", **c), workers=2, timeout=300)
+    for (name, c, expect), r in zip(negplan, nruns):
         ctx.add_tlc(f"PackAttack negative control: {name} (expects {expect})", r, require_ok=False)
         if expect not in r.violated or not r.error_trace:
             raise MachineryError(f"negative control '{name}' did not find {expect}\n{r.output[-1500:]}")
@@ -346,11 +364,16 @@ def attack_models(ctx):
 
 
 def ingest_models(ctx):
-    res = tlc.run("Ingest.tla", "Ingest_mc.cfg" if ctx.quick else "Ingest_mc2.cfg", workers=2, timeout=900, coverage=not ctx.quick)
+    from concurrent.futures import ThreadPoolExecutor
+    negs = (("Ingest_neg_norollback.cfg", "FailedIngestInvisible"), ("Ingest_neg_asis_rollback.cfg", "FailedIngestInvisible"),
+            ("Ingest_neg_asis_mem.cfg", "FailedIngestInvisible"))
+    with ThreadPoolExecutor(max_workers=4) as tp:
+        f0 = tp.submit(tlc.run, "Ingest.tla", "Ingest_mc.cfg" if ctx.quick else "Ingest_mc2.cfg", workers=2, timeout=900, coverage=not ctx.quick)
+        fs = [tp.submit(tlc.run, "Ingest.tla", cfg, workers=1, timeout=300) for cfg, _ in negs]
+        res = f0.result()
+        rs = [f.result() for f in fs]
     ctx.add_tlc("Ingest (every step with a failing twin; FailedIngestInvisible, NoPartialPackUsed, SuccessIsConsistent)", res)
-    for cfg, expect in (("Ingest_neg_norollback.cfg", "FailedIngestInvisible"), ("Ingest_neg_asis_rollback.cfg", "FailedIngestInvisible"),
-                        ("Ingest_neg_asis_mem.cfg", "FailedIngestInvisible")):
-        r = tlc.run("Ingest.tla", cfg, workers=2, timeout=300)
+    for (cfg, expect), r in zip(negs, rs):
         ctx.add_tlc(f"{cfg} (negative control, expects {expect})", r, require_ok=False)
         if expect not in r.violated:
             raise MachineryError(f"negative control {cfg} did not find {expect}\n{r.output[-1500:]}")
@@ -395,6 +418,36 @@ def git_opinion(ctx, shapes):
     ctx.cov["git_third_opinion_on_model"] = {"shapes": len(keys), "agree": len(keys) - len(dis), "disagreements": dis[:10]}
     ctx.log(f"git index-pack --fix-thin vs model (thin stream reader) on {len(keys)} shapes: {len(dis)} disagreements ({time.time() - t0:.1f}s)")
     shutil.rmtree(d, ignore_errors=True)
+
+
+def walk_label(shape, start):
+    """PackAttack's RStep (repaired design) in Python, used only to *label* a non-terminating read of a pack that is
+    larger than TLC enumerates: which error the guarded walk from `start` would end in ('' = resolves)."""
+    n = len(shape["e"])
+    if shape["hdr"] != 0:
+        return "length"
+    cur, seen = start, set()
+    while True:
+        seen.add(cur)
+        k, b = shape["e"][cur - 1]
+        if shape["szat"] == cur:
+            return "zlib"
+        if k == 1 and b == 0:
+            return "ofs0"
+        if k == 0:
+            return ""
+        if k == 1:
+            if b < 1:
+                return "garbage" if b == -1 else "assert-offset"
+            cur = b
+            continue
+        if b > n:
+            return "keyerror"
+        if b == cur:
+            return "unresolved-self"
+        if b in seen:
+            return "cycle"
+        cur = b
 
 
 def random_big_shapes(ctx, n_cases):
@@ -471,8 +524,13 @@ def attack_results(ctx, judge, cases, meta, results):
                 continue
             for ev in r["events"]:
                 nexec += 1
+                case = "attack random n>4"
+                if ev["path"] == "direct":
+                    hung = [i + 1 for i, x in enumerate(ev["per"]) if x[0] in ("timeout", "fatal")]
+                    if hung:
+                        case = f"attack expect={walk_label(shape, hung[0]) or 'ok'}"
                 judge.add_event(judge.obs(ev, ev["path"], trailer_ok=(shape["tr"] == 1)),
-                                {"site": SITE[ev["path"]], "case": "attack random n>4", "cls": "attack", "shape": skey,
+                                {"site": SITE[ev["path"]], "case": case, "cls": "attack", "shape": skey,
                                  "replay": {"case": dict(cases[cid], paths=[ev["path"]])}, "ev": ev, "drift": None})
                 ctx.nontrivial(("attack", skey, ev["path"]))
             continue
